@@ -557,31 +557,40 @@ func c18EqualReadsWhatParserWrote(r *core.Run, rule string) {
 		return
 	}
 	// W(T): members written before every store of class T
-	acc := core.FieldAccesses([]*ssa.Function{um}, isValueField)
+	acc := core.FieldAccesses(p.Helpers(um), isValueField) // the parser and its private helpers
 	written := map[int64]map[string]bool{}
 	for _, ac := range acc {
 		st, ok := ac.Instr.(*ssa.Store)
 		if !ok || ac.F != typeF || ac.Kind != "store" {
 			continue
 		}
-		k, ok := core.ConstInt(st.Val)
-		if !ok {
-			continue
+		// the class constant(s) stored: directly, or through a helper that picks one
+		var ks []int64
+		for _, lf := range valueLeaves(st.Val, nil, 0) {
+			if k, ok := core.ConstInt(lf.V); ok {
+				ks = append(ks, k)
+			}
 		}
 		ws := map[string]bool{}
 		for _, w := range acc {
-			if w.Write && w.F != typeF && core.Dominates(w.Instr, st) {
+			if w.Write && w.F != typeF && p.DominatesIn(um, w.Instr, st) {
 				ws[w.F.Name] = true
 			}
 		}
-		if prev, seen := written[k]; seen {
-			for n := range prev {
-				if !ws[n] {
-					delete(prev, n)
+		for _, k := range ks {
+			if prev, seen := written[k]; seen {
+				for n := range prev {
+					if !ws[n] {
+						delete(prev, n)
+					}
 				}
+			} else {
+				cp := map[string]bool{}
+				for n := range ws {
+					cp[n] = true
+				}
+				written[k] = cp
 			}
-		} else {
-			written[k] = ws
 		}
 	}
 	// R(T): members read in Equal while the class is T
